@@ -34,14 +34,14 @@ KINDS = {
         'out1': ['central.drug_concentration'],
         'out2': ['central.drug_amount', 'central.drug_concentration'],
         'out3': ['central.drug_amount'],
-        'renP': ('global.elimination_rate', 'K'),
+        'renP': ('global.elimination_rate', 'K: elimination rate constant as named by us'),
         'renO': ('central.drug_concentration', 'conc')},
     'lib2': {
         'comps': ['central'], 'amount': {'central': 'drug_amount'},
         'out1': ['global.tumour_volume'],
         'out2': ['central.drug_concentration', 'global.tumour_volume'],
         'out3': ['central.drug_concentration'],
-        'renP': ('global.kappa', 'K'),
+        'renP': ('global.kappa', 'K: potency parameter kappa as named by the user'),
         'renO': ('global.tumour_volume', 'vol')},
     'chain2': {
         'comps': ['zeta', 'alpha'],
@@ -49,7 +49,7 @@ KINDS = {
         'out1': ['alpha.drug_alpha_concentration'],
         'out2': ['global.total', 'zeta.drug_zeta_amount'],
         'out3': ['zeta.drug_zeta_amount'],
-        'renP': ('global.k_e', 'K'),
+        'renP': ('global.k_e', 'K: elimination rate constant as named by us'),
         'renO': ('alpha.drug_alpha_concentration', 'conc')},
 }
 PROBE_TIMES = [0.3, 1.0, 2.2]
@@ -227,6 +227,24 @@ def apply_op(kind, m, mach, op, others, viol, hist_label):
             mach.ren_o = mach.ren_o and K['renO'][0] in K[op] and (
                 mach.outs is None or K['renO'][0] in mach.outs)
             mach.outs = list(K[op])
+            mach.sens = False
+        elif op in ('outDup', 'outN'):
+            if op == 'outDup':
+                # a selection listing one output twice, the renamable one last
+                new_outs = [K['out3'][0], K['out3'][0], K['renO'][0]]
+                if new_outs[0] == new_outs[2]:
+                    new_outs = [K['out2'][0], K['out2'][0], K['renO'][0]]
+                given = list(new_outs)
+            else:
+                # the renamable output alone, asked for by the name it shows
+                new_outs = [K['renO'][0]]
+                shown = K['renO'][1] if K['renO'][1] in m.outputs() \
+                    else K['renO'][0]
+                given = [shown]
+            m.set_outputs(given)
+            mach.ren_o = mach.ren_o and (
+                mach.outs is None or K['renO'][0] in mach.outs)
+            mach.outs = list(new_outs)
             mach.sens = False
         elif op == 'outD':
             # the amount in the dose compartment: exists with an indirect route only
@@ -744,7 +762,7 @@ def make_red_search(kind, depth, tail=1):
 
 def _ops(kind):
     ops = ['admD', 'admI', 'badAdm', 'reg1', 'reg2', 'reg0', 'out1', 'out2', 'out3',
-           'outD',
+           'outD', 'outDup', 'outN',
            'renP',
            'renChain', 'renO', 'sensOn', 'sensSub', 'sensOff', 'sim', 'copyC',
            'copyO']
